@@ -94,10 +94,14 @@ type probeRun struct {
 	Output   *probe.Output
 	Dumps    map[string]*probe.DialectDump
 	BuildErr map[string]string // per package
+	// KindMismatch lists "pkg.ENUM" whose generated code has the other shape (bitmask / ordinary) than the definition says
+	KindMismatch []string
 }
 
 // buildAndProbe copies generated packages into a scratch module with a generated main, builds and runs it.
-func buildAndProbe(modDir string, gens []*genOutcome, seed uint64, nRandom int) (*probeRun, error) {
+// kinds (optional): for "pkg.ENUM", whether the definition declares the enum a bitmask. The oracle is then driven by the
+// definition, not by the shape of the generated code.
+func buildAndProbe(modDir string, gens []*genOutcome, seed uint64, nRandom int, kinds ...map[string]bool) (*probeRun, error) {
 	if err := os.MkdirAll(modDir, 0o755); err != nil {
 		return nil, err
 	}
@@ -165,6 +169,14 @@ func buildAndProbe(modDir string, gens []*genOutcome, seed uint64, nRandom int) 
 		if err != nil {
 			pr.BuildErr[n] = "scan: " + err.Error()
 			continue
+		}
+		if len(kinds) > 0 && kinds[0] != nil {
+			for _, en := range p.Enums {
+				if want, ok := kinds[0][p.Name+"."+en.Name]; ok && !en.Alias && want != en.Bitmask {
+					pr.KindMismatch = append(pr.KindMismatch, p.Name+"."+en.Name)
+					en.Bitmask = want
+				}
+			}
 		}
 		pkgs = append(pkgs, p)
 	}
